@@ -59,7 +59,7 @@ STRING_ALPHA = ["", "a", "é", "\U0001F600", "\x00", "x" * 128,
 BYTES_ALPHA = [b"", b"\x00", b"\xff\xfe", bytes(range(128)),
                bytes(125), bytes(126), bytes(127), bytes(129), bytes(16382), bytes(16383)]
 ENUM_DEFINED = [0, 1, -1, 2**31 - 1, -(2**31)]
-ENUM_UNDEFINED = [7, -5]
+ENUM_UNDEFINED = [7, -5, 200]   # 200: one byte as a number, two bytes as a varint
 TS_ALPHA = [
     EPOCH,
     EPOCH + US,
